@@ -675,29 +675,53 @@ theorem feed2_sa_started (n : Nat) (groups : List (List FiberIn)) (s : IState) (
     rw [ih { s with count := s.count + saSpecAll g } hs hn (fun x hx => h x (List.mem_cons_of_mem _ hx))]
     simp [saSpecAll_append, Int.add_assoc]
 
-theorem tfTotal_batches (n : Nat) (groups : List (List FiberIn)) (h : GroupsOk n groups) :
+theorem batchesOf_cons_cons (n : Nat) (f : FiberIn) (g : List FiberIn) (r : List (List FiberIn)) :
+    batchesOf n ((f :: g) :: r) =
+      (TRow.hdr (2 * n + 1) :: (groupRows (f :: g)).1, TRow.hdr (2 * n + 1) :: (groupRows (f :: g)).2)
+        :: r.map groupRows := rfl
+
+/-- two-finger: provided the first call is not empty (an empty first trace raises IndexError) -/
+theorem tfTotal_batches (n : Nat) (groups : List (List FiberIn)) (h : GroupsOk n groups)
+    (hne : groups.head? ≠ some []) :
     tfTotal (batchesOf n groups) = some (tfSpecAll groups.flatten : Int) := by
   cases groups with
   | nil => simp [tfTotal, batchesOf, feed2, tfSpecAll]
   | cons g r =>
-    obtain ⟨h1, h2⟩ := h g (List.mem_cons_self ..)
-    simp only [tfTotal, batchesOf, List.map_cons, feed2]
-    rw [tfAdd_first n g {} rfl h1 h2]
-    simp only [Option.bind_some]
-    rw [feed2_tf_started n r _ rfl rfl (fun x hx => h x (List.mem_cons_of_mem _ hx))]
-    simp [tfSpecAll_append]
+    cases g with
+    | nil => simp at hne
+    | cons f g' =>
+      obtain ⟨h1, h2⟩ := h (f :: g') (List.mem_cons_self ..)
+      rw [batchesOf_cons_cons]
+      simp only [tfTotal, feed2]
+      rw [tfAdd_first n (f :: g') {} rfl h1 h2]
+      simp only [Option.bind_some]
+      rw [feed2_tf_started n r _ rfl rfl (fun x hx => h x (List.mem_cons_of_mem _ hx))]
+      rw [List.flatten_cons, tfSpecAll_append]
+      simp
 
+theorem saAdd_empty_unstarted : saAdd {} [] [] = some {} := by
+  simp [saAdd, startPts]
+
+/-- skip-ahead: any grouping, empty calls anywhere -/
 theorem saTotal_batches (n : Nat) (groups : List (List FiberIn)) (h : GroupsOk n groups) :
     saTotal (batchesOf n groups) = some (saSpecAll groups.flatten : Int) := by
-  cases groups with
+  induction groups with
   | nil => simp [saTotal, batchesOf, feed2, saSpecAll]
-  | cons g r =>
-    obtain ⟨h1, h2⟩ := h g (List.mem_cons_self ..)
-    simp only [saTotal, batchesOf, List.map_cons, feed2]
-    rw [saAdd_first n g {} rfl h1 h2]
-    simp only [Option.bind_some]
-    rw [feed2_sa_started n r _ rfl rfl (fun x hx => h x (List.mem_cons_of_mem _ hx))]
-    simp [saSpecAll_append]
+  | cons g r ih =>
+    cases g with
+    | nil =>
+      have := ih (fun x hx => h x (List.mem_cons_of_mem _ hx))
+      simp only [saTotal, batchesOf, feed2, saAdd_empty_unstarted, Option.bind_some] at this ⊢
+      simpa using this
+    | cons f g' =>
+      obtain ⟨h1, h2⟩ := h (f :: g') (List.mem_cons_self ..)
+      rw [batchesOf_cons_cons]
+      simp only [saTotal, feed2]
+      rw [saAdd_first n (f :: g') {} rfl h1 h2]
+      simp only [Option.bind_some]
+      rw [feed2_sa_started n r _ rfl rfl (fun x hx => h x (List.mem_cons_of_mem _ hx))]
+      rw [List.flatten_cons, saSpecAll_append]
+      simp
 
 end Ft
 
@@ -751,17 +775,46 @@ theorem sum_leader_lengths (groups : List (List FiberIn)) :
     rw [sum_length_flatMap]
     simp [lfSpecAll, length_leaderRows]
 
-theorem lfTotal_leader (n : Nat) (groups : List (List FiberIn)) :
+/-- rows of the leader trace over all calls: the presented elements, plus the header as soon
+    as one intersection has run -/
+theorem rows_leader (n : Nat) (groups : List (List FiberIn)) :
+    ((leaderBatchesOf n groups).map List.length).sum =
+      lfSpecAll groups.flatten + (if groups.all List.isEmpty then 0 else 1) := by
+  induction groups with
+  | nil => rfl
+  | cons g r ih =>
+    cases g with
+    | nil => simpa [leaderBatchesOf] using ih
+    | cons f g' =>
+      have := sum_leader_lengths ((f :: g') :: r)
+      simp only [List.map_cons, List.sum_cons] at this
+      simp only [leaderBatchesOf, List.map_cons, List.sum_cons, List.length_cons, List.all_cons,
+        List.isEmpty_cons, Bool.false_and, Bool.false_eq_true, if_false]
+      omega
+
+theorem leaderBatchesOf_ne_nil (n : Nat) (g : List FiberIn) (r : List (List FiberIn)) :
+    ∃ b t, leaderBatchesOf n (g :: r) = b :: t := by
+  cases g with
+  | nil => exact ⟨_, _, rfl⟩
+  | cons f g' => exact ⟨_, _, rfl⟩
+
+/-- leader-follower: any grouping, empty calls anywhere, provided at least one intersection
+    has run before the last call (otherwise there is no header and the total is -1) -/
+theorem lfTotal_leader (n : Nat) (groups : List (List FiberIn))
+    (hne : groups = [] ∨ groups.all List.isEmpty = false) :
     lfTotal (leaderBatchesOf n groups) = (lfSpecAll groups.flatten : Int) := by
   cases groups with
   | nil => rfl
   | cons g r =>
-    have := sum_leader_lengths (g :: r)
-    simp only [List.map_cons, List.sum_cons] at this
-    simp only [leaderBatchesOf, List.map_cons]
-    rw [lfTotal_cons]
-    simp only [List.map_cons, List.sum_cons, List.length_cons]
-    omega
+    have hall : (g :: r).all List.isEmpty = false := by
+      rcases hne with h | h
+      · cases h
+      · exact h
+    obtain ⟨b, t, hb⟩ := leaderBatchesOf_ne_nil n g r
+    have hr := rows_leader n (g :: r)
+    rw [hb] at hr ⊢
+    rw [lfTotal_cons, hr, hall]
+    simp
 
 theorem singletons_ok (n : Nat) (fs : List FiberIn)
     (hshape : ∀ f ∈ fs, f.oi.length + 1 = n ∧ f.pre.length + 1 = n) :
